@@ -27,8 +27,8 @@ fn pair_case<P: G>(n: usize, m: usize, d: usize, cp: usize, cv: usize) -> Box<dy
         if m == 1 {
             wit.seed = Some(seed_scalar(2));
         }
-        let prover = build_cached::<P>(&cfg_p, &wit).expect("valid");
-        let verifier = build_cached::<P>(&cfg_v, &wit).expect("valid");
+        let prover = build_cached::<P>(&cfg_p, &wit).honest();
+        let verifier = build_cached::<P>(&cfg_v, &wit).honest();
         let proof = match lib_prove(&prover, &CTX_A, &mut HRng::chacha(3)) {
             Ok(p) => p,
             Err(_) => {
@@ -100,8 +100,8 @@ fn mixed_templates<P: G>(n: usize, d: usize, depth: usize) -> Tpl<P> {
                 wit.values[j] = ((pos + 2 * j) as u64) & cfg.max_value();
             }
             let ctx = contexts()[pos % 6];
-            let built = build_cached::<P>(&cfg, &wit).unwrap();
-            let proof = lib_prove(&built, &ctx, &mut HRng::chacha(200 + pos as u64)).unwrap();
+            let built = build_cached::<P>(&cfg, &wit).honest();
+            let proof = lib_prove(&built, &ctx, &mut HRng::chacha(200 + pos as u64)).honest();
             row.push((built.statement.clone(), proof, ctx));
         }
         members.push(row);
@@ -115,7 +115,10 @@ fn mixed_templates<P: G>(n: usize, d: usize, depth: usize) -> Tpl<P> {
 }
 
 fn mixed_cases<P: G>(n: usize, d: usize, depth: usize) -> Vec<Box<dyn Case>> {
-    let tpl = Arc::new(mixed_templates::<P>(n, d, depth));
+    let tpl = match honest_scope(|| mixed_templates::<P>(n, d, depth)) {
+        Some(t) => Arc::new(t),
+        None => return Vec::new(),
+    };
     let mut cases: Vec<Box<dyn Case>> = Vec::new();
     let mut frontier: Vec<Vec<usize>> = vec![vec![]];
     for _ in 0..depth {
@@ -155,7 +158,7 @@ fn mixed_cases<P: G>(n: usize, d: usize, depth: usize) -> Vec<Box<dyn Case>> {
                                 wit.values[j] = ((pos + 2 * j) as u64) & cfg.max_value();
                             }
                             let ctx = contexts()[pos % 6];
-                            let built = build_cached::<P>(&cfg, &wit).unwrap();
+                            let built = build_cached::<P>(&cfg, &wit).honest();
                             if let Ok(p) = lib_prove(&built, &ctx, &mut HRng::chacha(200 + pos as u64)) {
                                 proofs2.push(p);
                                 sts2.push(built.statement.clone());
